@@ -97,9 +97,9 @@ CHECKS = {
                 "distinct symbols, index / Hermann-Mauguin / Hall agreement through the model of Symmetry::new, Z = number of operators with the identity "
                 "first, pairwise distinct operators, integer rotations of determinant +-1, translations multiples of 1/12, closure under composition modulo "
                 "the lattice, the neighbours 0 and 231, the mmCIF round trip for all groups and the CRYST1 round trip for all groups whose symbol fits its "
-                "ten columns (the 14 others are proved to fail: known finding). Exhaustive correspondence on the crate in two build profiles.",
+                "eleven columns (the 10 others are proved to fail: known finding). Exhaustive correspondence on the crate in two build profiles.",
         "design_ref": "DESIGN.md section 6 C17",
-        "note": "Trusted: Coq kernel (vm_compute), T2a translator, extraction, harness. The CRYST1 field layout ('  ' + {:10}{:3}, columns 55..66) is "
+        "note": "Trusted: Coq kernel (vm_compute), T2a translator, extraction, harness. The CRYST1 field layout (' ' + {:11}{:4}, columns 55..66) is "
                 "hand-modelled and tied by the exhaustive round trip on the crate.",
         "technique": "Coq proof by exhaustive computation over translator-regenerated tables (forallb lifted by forallb_forall) + exhaustive correspondence",
     },
